@@ -214,7 +214,21 @@ theorem step_rc {s s' : MuxSt} {ev : Ev} (h : Nat) (hs : step s ev = some s') :
     · rfl
     · exact (doClose_rc (setError s .wfail) h).trans (setError_rc s .wfail h)
 
+theorem step_cfg {s s' : MuxSt} {ev : Ev} (hs : step s ev = some s') : s'.cfg = s.cfg := by
+  cases ev <;> simp only [Mux.step] at hs <;> (repeat' split at hs) <;>
+    (try cases hs) <;> simp_all
+
 /-! ### run-level versions -/
+
+theorem run_cfg {s s' : MuxSt} {tr : List Ev} (hr : run s tr = some s') : s'.cfg = s.cfg := by
+  induction tr generalizing s with
+  | nil => simp [run] at hr; rw [hr]
+  | cons ev tr ih =>
+    simp only [run] at hr
+    split at hr
+    · rename_i s1 h1; rw [ih hr, step_cfg h1]
+    · cases hr
+
 
 theorem delivered_cons (ev : Ev) (tr : List Ev) :
     delivered (ev :: tr) = delivered [ev] ++ delivered tr := by
@@ -399,6 +413,162 @@ theorem run_stable {s s' : MuxSt} {tr : List Ev} {h : Nat} {c : Conn} (hr : run 
       obtain ⟨c1, hc1, st1⟩ := step_stable h1 hc
       obtain ⟨c2, hc2, st2⟩ := ih hr hc1
       exact ⟨c2, hc2, st1.trans st2⟩
+    · cases hr
+
+/-! ### closing -/
+
+theorem lookup_mem_values {m : AList Nat Nat} {k v : Nat} (h : AList.lookup m k = some v) :
+    v ∈ m.map (·.2) := by
+  induction m with
+  | nil => simp [AList.lookup] at h
+  | cons e rest ih =>
+    obtain ⟨k', v'⟩ := e
+    simp only [AList.lookup] at h
+    split at h
+    · cases h; simp
+    · simp only [List.map_cons, List.mem_cons]; exact Or.inr (ih h)
+
+/-- `mux.Close` on a mux that was not yet closed leaves every existing conn closed -/
+theorem doClose_all_closed {s : MuxSt} (hi : Inv s) (hnc : s.closed = false) {h : Nat} {c : Conn}
+    (hc : (doClose s).objs[h]? = some c) : c.closed = true := by
+  unfold doClose at hc
+  simp only [hnc, Bool.false_eq_true, if_false, closeHandles_get] at hc
+  split at hc
+  · cases ho : s.objs[h]? with
+    | none => simp [ho] at hc
+    | some c0 => simp [ho] at hc; subst hc; rfl
+  · rename_i hnm
+    have := (hi.obj h c hc).unmapped_closed
+    apply this
+    intro hl
+    exact hnm (lookup_mem_values hl)
+
+/-! ### draining after the reader has gone -/
+
+def qlOf (objs : List Conn) (h : Nat) : Nat :=
+  match objs[h]? with
+  | some c => c.queue.length
+  | none => 0
+
+theorem qlOf_set {objs : List Conn} {h0 : Nat} {c0 : Conn} (c' : Conn) (h : Nat)
+    (hc0 : objs[h0]? = some c0) :
+    qlOf (objs.set h0 c') h = if h0 = h then c'.queue.length else qlOf objs h := by
+  have hlt0 : h0 < objs.length := (List.getElem?_eq_some_iff.mp hc0).1
+  unfold qlOf
+  by_cases hh : h0 = h
+  · subst hh; simp [hlt0]
+  · simp [hh]
+
+theorem qlOf_closeHandles (objs : List Conn) (hs : List Nat) (h : Nat) :
+    qlOf (closeHandles objs hs) h = qlOf objs h := by
+  simp only [qlOf, closeHandles_get]
+  by_cases hm : h ∈ hs <;> cases ho : objs[h]? <;> simp [hm, Conn.close]
+
+theorem qlOf_doClose (s : MuxSt) (h : Nat) : qlOf (doClose s).objs h = qlOf s.objs h := by
+  unfold doClose; split
+  · rfl
+  · exact qlOf_closeHandles _ _ _
+
+theorem qlOf_append_new (objs : List Conn) (c : Conn) (h : Nat) (hc : c.queue = []) :
+    qlOf (objs ++ [c]) h = qlOf objs h := by
+  unfold qlOf
+  by_cases hlt : h < objs.length
+  · rw [List.getElem?_append_left hlt]
+  · have hn : objs[h]? = none := List.getElem?_eq_none_iff.mpr (by omega)
+    rw [hn]
+    by_cases he : h = objs.length
+    · subst he; simp [hc]
+    · have : (objs ++ [c])[h]? = none := List.getElem?_eq_none_iff.mpr (by simp; omega)
+      rw [this]
+
+/-- once the reader goroutine has returned nothing is queued any more: each step keeps
+    `readerDone`, and the queue of `h` shrinks by what Read hands out -/
+theorem step_drain {s s' : MuxSt} {ev : Ev} (h : Nat) (hs : step s ev = some s')
+    (hd : s.readerDone = true) :
+    s'.readerDone = true ∧ qlOf s'.objs h + (received h [ev]).length ≤ qlOf s.objs h := by
+  cases ev with
+  | read h0 bl bc r =>
+    simp only [Mux.step] at hs
+    split at hs
+    · cases hs
+    · rename_i c0 hc0
+      split at hs
+      · cases r with
+        | err e =>
+          simp only at hs; split at hs <;> cases hs
+          simp [hd, received]
+        | enomem =>
+          simp only at hs
+          split at hs
+          · cases hs
+          · rename_i q rest hq
+            split at hs
+            · cases hs
+              refine ⟨hd, ?_⟩
+              simp only [qlOf_set _ h hc0, received, List.length_nil, Nat.add_zero]
+              split
+              · rename_i hh; subst hh; simp [qlOf, hc0, hq]
+              · exact Nat.le_refl _
+            · cases hs
+        | data p n =>
+          simp only at hs
+          split at hs
+          · cases hs
+          · rename_i q rest hq
+            split at hs
+            · cases hs
+              refine ⟨hd, ?_⟩
+              simp only [qlOf_set _ h hc0, received]
+              by_cases hh : h0 = h
+              · subst hh; simp [qlOf, hc0, hq]
+              · simp [hh]
+            · cases hs
+      · cases hs
+  | deliver f => simp [Mux.step, hd] at hs
+  | overflow f => simp [Mux.step, hd] at hs
+  | readerFail e => simp [Mux.step, hd] at hs
+  | readerExit => simp [Mux.step, hd] at hs
+  | closeConn h0 =>
+    simp only [Mux.step] at hs
+    split at hs
+    · cases hs
+    · rename_i c0 hc0
+      cases hs
+      refine ⟨hd, ?_⟩
+      simp only [qlOf_set _ h hc0, received, List.length_nil, Nat.add_zero]
+      split
+      · rename_i hh; subst hh; simp [qlOf, hc0]
+      · exact Nat.le_refl _
+  | openNew id h0 =>
+    simp only [Mux.step] at hs
+    split at hs
+    · cases hs; exact ⟨hd, by simp [qlOf_append_new, received]⟩
+    · cases hs
+  | openReserved => simp only [Mux.step] at hs; cases hs; exact ⟨hd, by simp [received]⟩
+  | openOld id h0 =>
+    simp only [Mux.step] at hs; split at hs <;> cases hs; exact ⟨hd, by simp [received]⟩
+  | closeMux =>
+    simp only [Mux.step] at hs; cases hs
+    exact ⟨by simpa using hd, by simp [received, qlOf_doClose]⟩
+  | write h0 p r =>
+    simp only [Mux.step] at hs
+    (repeat' split at hs) <;> (try cases hs)
+    · exact ⟨hd, by simp [received]⟩
+    · exact ⟨hd, by simp [received]⟩
+    · exact ⟨by simpa using hd, by simp [received, qlOf_doClose]⟩
+    · exact ⟨hd, by simp [received]⟩
+
+theorem run_drain {s s' : MuxSt} {tr : List Ev} (h : Nat) (hr : run s tr = some s')
+    (hd : s.readerDone = true) : (received h tr).length ≤ qlOf s.objs h := by
+  induction tr generalizing s with
+  | nil => simp [received]
+  | cons ev tr ih =>
+    simp only [run] at hr
+    split at hr
+    · rename_i s1 h1
+      have ⟨hd1, hq⟩ := step_drain h h1 hd
+      have := ih hr hd1
+      rw [received_cons, List.length_append]; omega
     · cases hr
 
 end Nri.Mux
